@@ -308,7 +308,8 @@ def run(sc, tier, replay_file):
     bad["steps"] = bad["steps"][:k] + [{"act": ["LWrite", True], "post": dict(bad["steps"][k]["post"], L="select")}] + bad["steps"][k:]
     byid[bad["id"]] = bad
     cr, _ = replay(sc, binary, [bad], "ctrl", workers=1)
-    if not cr or not cr[0].get("deviation"):
+    # (on a tree that crashes on this history the control ends in the crash, which is not "without complaint" either)
+    if not cr or not (cr[0].get("deviation") or cr[0].get("crash")):
         raise vlib.MachineryError("negative control: a history outside the model was replayed without complaint: %s" % cr)
     # 2. the interleaved Write trace must be refused
     tr = sc.path("wr-bad.ndjson")
